@@ -15,7 +15,7 @@ def add(pid, technique, text, note, level="exploration", ref=None):
 
 
 add("C06", "hypothesis-generated ODE problems vs closed-form solutions (observed convergence order at 3 resolutions); recorded stage times; bitwise state immutability",
-    "Generated search over nine closed-form ODE families (autonomous and explicitly time dependent), random parameters, start times and step sizes: the observed order of both built-in iterators is estimated from sup-norm errors at h, h/2, h/4 and compared with the nominal order; the times at which the derivative callback is invoked are compared with the documented stage times, both by calling the iterator function directly and through GenericModel.solve; the state vector is compared bit for bit. A limit statement decided on a finite window of step sizes.",
+    "Generated search over eleven closed-form ODE families (two of them starting at rest) (autonomous and explicitly time dependent), random parameters, start times and step sizes: the observed order of both built-in iterators is estimated from sup-norm errors at h, h/2, h/4 and compared with the nominal order; the times at which the derivative callback is invoked are compared with the documented stage times, both by calling the iterator function directly and through GenericModel.solve; the state vector is compared bit for bit. A limit statement decided on a finite window of step sizes.",
     "numpy closed forms; asymptotic window [1e-11,5e-2]*scale; slack 0.35 on the order, both successive estimates must fall short")
 
 add("C05", "hypothesis-generated model programs (data-described GenericModel subclasses, Coupler couplings, degenerate step proposals) with history invariants recorded inside the model callbacks",
